@@ -25,6 +25,10 @@ CHECKS = {
         native(),
         script("strace-kill", "legs_c07", "strace_leg"),
     ]},
+    "C10": {"crate": "h_chain", "bin": "c10", "level": "fault_enumeration", "legs": [
+        native(),
+        script("strace-ack", "legs_fsync", "c10_leg"),
+    ]},
     "C11": {"crate": "h_store", "bin": "c11", "level": "exploration", "legs": [
         native(),
         tsan(args={"quick": {"part": "stress", "budget-s": 25}, "thorough": {"part": "stress", "budget-s": 300}}),
